@@ -81,6 +81,17 @@ CLAIMED = {
             'decoded architectures x drawn evaluator plans; oracle = implication table from the statement + evaluation model',
             'Generated-input search; implications are taken literally (only-if where the text says so).',
             'Permanent = necessary closure of the start nodes for the if-direction; every-architecture (R-SEL) for only-if.'),
+    'C05': ('property-based testing of operation histories (generated sequences over decode/enumerate/statistics/fix/free/'
+            'mutate/pickle, bounded-exhaustive for length <= 2/3 on fixed specs) with a fresh-object differential oracle '
+            'after every step, plus child processes with other hash seeds and node-id orders',
+            'History search: the whole operation sequence is one generated value (shrinks as a unit); after each step the '
+            'used processor must be indistinguishable from a freshly built one.',
+            'Fresh objects are built with identical node ids so that only the history differs; other id orders are '
+            'exercised through the salt and in child processes.'),
+    'C15': ('property-based testing of fix/free histories against the filtered unfixed enumeration (subset law in both '
+            'directions) and restoration differential after freeing',
+            'History search over (variable, value) fixes and frees; oracle = filter model on the unfixed enumeration.',
+            'Rows where the fixed variable is inactive may or may not be kept (the statement allows both).'),
 }
 
 NOT_YET = 'check not built yet in this session (see DESIGN.md 6 for the plan); will be claimed once it is registered'
